@@ -72,6 +72,17 @@ CLAIMED['C08'] = dict(
          'Trusted: dict lookup semantics, regex semantics of the release-id pattern.',
     design='§6 C08')
 
+CLAIMED['C07'] = dict(
+    text='For each of the 30 README-listed release protocols and each of the 20 core packets: membership in the right '
+         'state/direction table, get_id equal to the reference id, and - with symbolic field values - the typed-atom sequence '
+         'emitted by the REAL write_fields equal to the reference field list, and the REAL read on the reference sequence '
+         'returning the values and consuming it exactly. Field types enter through their S2/S3 contracts (proved at byte '
+         'level in C02/C03), so a consistent change to both directions (shifted layout boundary, swapped fields, wrong id) '
+         'fails a named obligation. A byte-level pass with an independent concrete encoder and boundary values runs alongside.',
+    note='Trusted: spec/protocol_ref.py (ids and field lists transcribed from the protocol documentation from memory - no '
+         'network), the S2/S3 codec contracts, NBT as opaque blobs (position only), one-byte signedness not distinguished.',
+    design='§6 C07')
+
 PLANNED = {
     'C01': 'check not built yet (DESIGN §6 C01): frame contracts on Packet.write/_write_buffer/read_packet',
     'C02': 'check not built yet (DESIGN §6 C02)',
